@@ -7,7 +7,7 @@ use crate::model::{MV, json};
 use proptest::prelude::*;
 use serde::{Deserialize, Serialize};
 
-pub const RULE: &str = "programs from a recursion grammar: shape in {self, mutual (2 and 3 functions), via / where / map / filter / reduce callback, the callee handed straight to into / where / element-wise via (no call expression in the cycle), do-block body (also with a captured name and a helper defined after its user), anonymous cycle through a record method / a list element / self-application, a named function made in a factory's do-block and used after the block has ended} x per-call expression nesting 1..32 of kind {arithmetic chain, list nesting, record nesting, conditionals, call-argument nesting, mixture, field / index access under ??, operand of a record / list / argument spread}, each also in a source that starts with a non-ASCII comment, x {unbounded, bounded with depth 100..900 for plain shapes}; enumerated: every shape x nesting {1, 2, 4, 8} x 2 kinds (runaway and 200-300 deep) and nesting {16, 24, 32} x all kinds (runaway; 900 deep for plain shapes); random beyond that; single-line shapes are also typed statement by statement into the interactive CLI on a pseudo-terminal (same 8 MiB stack limit). Each is run in the release `blots` binary built from the working tree with RLIMIT_STACK = 8 MiB (the default main-thread stack), RLIMIT_AS 6 GiB and a 60 s timeout. Unbounded programs must exit with status 1 and report `maximum call depth`; a signal or exit 101 is a violation. Bounded programs must exit 0 with the arithmetically expected value. Non-trivial = per-call nesting >= 2 or a callback / mutual / anonymous shape; distinct by program text.";
+pub const RULE: &str = "programs from a recursion grammar: shape in {self, mutual (2 and 3 functions), via / where / map / filter / reduce callback, the callee handed straight to into / where / element-wise via (no call expression in the cycle), do-block body (also with a captured name and a helper defined after its user), anonymous cycle through a record method / a list element / self-application, a named function made in a factory's do-block and used after the block has ended} x per-call expression nesting 1..32 of kind {arithmetic chain, list nesting, record nesting, conditionals, call-argument nesting, mixture, field / index access under ??, operand of a record / list / argument spread, right operand of and / or / && whose left operand already decides}, each also in a source that starts with a non-ASCII comment, x {unbounded, bounded with depth 100..900 for plain shapes}; enumerated: every shape x nesting {1, 2, 4, 8} x 2 kinds (runaway and 200-300 deep) and nesting {16, 24, 32} x all kinds (runaway; 900 deep for plain shapes); random beyond that; single-line shapes are also typed statement by statement into the interactive CLI on a pseudo-terminal (same 8 MiB stack limit). Each is run in the release `blots` binary built from the working tree with RLIMIT_STACK = 8 MiB (the default main-thread stack), RLIMIT_AS 6 GiB and a 60 s timeout. Unbounded programs must exit with status 1 and report `maximum call depth`; a signal or exit 101 is a violation. Bounded programs must exit 0 with the arithmetically expected value. Non-trivial = per-call nesting >= 2 or a callback / mutual / anonymous shape; distinct by program text.";
 pub const ASSUMPTIONS: &[&str] = &[
     "only the real binary decides; a timeout or memory-limit hit is counted as inconclusive, never as a violation",
     "error-swallowing sort_by callbacks are excluded (they turn runaway recursion into exponential work and are not in the statement's list)",
@@ -50,6 +50,11 @@ fn wrap(inner: &str, nesting: u8, kind: u8) -> (String, u32) {
             16 => format!("{{...{{a: {}}}}}.a", s),
             17 => format!("[...[{}]][0]", s),
             18 => format!("idf(...[{}])", s),
+            // the recursive call is the right operand of a boolean operator whose left operand
+            // already decides the result: both operands are evaluated all the same
+            19 => format!("(if false and ({}) == 0 then 0 else 0)", s),
+            20 => format!("(if true or ({}) == 0 then 0 else 0)", s),
+            21 => format!("(if false && ({}) == 0 then 0 else 0)", s),
             _ => format!("idf({})", s),
         };
     }
@@ -277,6 +282,9 @@ pub fn run(ctx: &mut Ctx) {
                 fixed.push(Case { shape, nesting, kind, bounded: None, repl: false });
                 fixed.push(Case { shape, nesting, kind, bounded: Some(if matches!(shape, 3..=7 | 13 | 14) { 150 } else { 250 }), repl: false });
             }
+        }
+        for kind in [19u8, 20, 21] {
+            fixed.push(Case { shape, nesting: 1, kind, bounded: None, repl: false });
         }
         for nesting in [1u8, 2, 4, 8] {
             for kind in [0u8, 4, 6, 7, 8, 13] {
